@@ -1,11 +1,12 @@
 CONSTANTS S = 6
 NWMAX = 8
-KMAX = 12
+KMAX = 24
 FMAX = 3
 INIT Init
 NEXT Next
 CHECK_DEADLOCK FALSE
 INVARIANT I_AlgoIsMinimal
 INVARIANT I_NeverAboveCap
+INVARIANT I_CapKeepsIntegerPart
 INVARIANT I_MinimalityDirect
 INVARIANT Emit
